@@ -129,6 +129,32 @@ fn c19_first_match_all_removed() {
 }
 }
 
+// @verif id=C19 tier=thorough role=first_match timeout=900 desc=last-removed
+crate::verif_proof! { unwind = 6;
+fn c19_first_match_last_removed() {
+    let w = first_match([false, false, true], false);
+    assert!(w != 2);
+    kani::cover!(w == 3, "third rule gone: two passes mean Pass");
+    kani::cover!(w == 1, "second decides");
+}
+}
+// @verif id=C19 tier=thorough role=first_match timeout=900 desc=first-two-removed-descending
+crate::verif_proof! { unwind = 6;
+fn c19_first_match_only_last_remains() {
+    let w = first_match([true, true, false], true);
+    assert!(w == 2 || w == 3);
+    kani::cover!(w == 2, "the only remaining rule decides");
+}
+}
+// @verif id=C19 tier=thorough role=first_match timeout=900 desc=last-two-removed-ascending
+crate::verif_proof! { unwind = 6;
+fn c19_first_match_only_first_remains() {
+    let w = first_match([false, true, true], false);
+    assert!(w == 0 || w == 3);
+    kani::cover!(w == 0, "the only remaining rule decides");
+}
+}
+
 // @verif id=C19 tier=quick role=install_order timeout=600
 // Installing after a removal keeps the order of the remaining rules and appends the new rule last.
 crate::verif_proof! { unwind = 6;
